@@ -457,6 +457,19 @@ impl From<serde_yaml::Mapping> for Mapping {
     }
 }
 
+impl Mapping {
+    /// Converts a `serde_yaml::Mapping` into a `Mapping`, returning an error if the mapping
+    /// contains values which can't be converted. See [`Value::try_from_yaml()`].
+    pub(crate) fn try_from_yaml(m: serde_yaml::Mapping) -> Result<Self> {
+        let mut new = Self::with_capacity(m.len());
+        for (k, v) in m {
+            new.insert(Value::try_from_yaml(k)?, Value::try_from_yaml(v)?)
+                .unwrap();
+        }
+        Ok(new)
+    }
+}
+
 impl From<Mapping> for serde_yaml::Mapping {
     /// Converts a `Mapping` into a `serde_yaml::Mapping`.
     ///
